@@ -104,6 +104,80 @@ func c20Type(env *core.Env, tn string) {
 	if ue != r1 {
 		env.Violatef("C20/bundle-entry-unwrap/not-same/"+tn, "bundle.UnwrapEntry(NewCollectionEntry(x)) is not x for %s", tn)
 	}
+	c20TypeMore(env, tn, r1, r2)
+}
+
+// c20TypeMore: the other ways of creating, naming and wrapping a resource of the type: the name as a Type value,
+// request entries (POST, PUT), bundles built by the constructors, unwrapping into a per-type map, and the
+// contained-resource accessors, which answer for the wrapped resource.
+func c20TypeMore(env *core.Env, tn string, r1, r2 fhir.Resource) {
+	setStr := func(m protoreflect.Message, field, val string) {
+		fd := m.Descriptor().Fields().ByName(protoreflect.Name(field))
+		im := m.Mutable(fd).Message()
+		im.Set(im.Descriptor().Fields().ByName("value"), protoreflect.ValueOfString(val))
+	}
+	setStr(r1.ProtoReflect(), "id", "x1")
+	setStr(r1.ProtoReflect().Mutable(r1.ProtoReflect().Descriptor().Fields().ByName("meta")).Message(), "version_id", "7")
+	setStr(r2.ProtoReflect(), "id", "x2")
+	other := "Patient"
+	if tn == "Patient" {
+		other = "Group"
+	}
+	r3, _ := resource.NewFromString(other)
+	bad := func(sig, format string, a ...any) { env.Violatef("C20/"+sig+"/"+tn, format, a...) }
+	out := env.Guard("resource wrappers (more) "+tn, func() {
+		if ty, err := resource.NewType(tn); err != nil || string(ty) != tn || ty.String() != tn {
+			bad("new-type", "resource.NewType(%q) = %q, %v", tn, ty, err)
+		}
+		for _, wrong := range []string{strings.ToLower(tn), tn + "x", " " + tn, ""} {
+			if ty, err := resource.NewType(wrong); err == nil || resource.IsType(wrong) {
+				bad("new-type", "resource.NewType(%q) = %q, %v; IsType %v", wrong, ty, err, resource.IsType(wrong))
+			}
+			if r, err := resource.NewFromString(wrong); err == nil {
+				bad("new-by-name", "resource.NewFromString(%q) = %T", wrong, r)
+			}
+		}
+		cr := containedresource.Wrap(r1)
+		vu, okv := containedresource.VersionedURIString(cr)
+		if containedresource.ID(cr) != "x1" || containedresource.VersionID(cr) != "7" || containedresource.URIString(cr) != tn+"/x1" || containedresource.URI(cr).GetValue() != tn+"/x1" || !okv || vu != tn+"/x1/_history/7" || containedresource.VersionedURI(cr).GetValue() != vu {
+			bad("contained-accessors", "contained %s/x1 version 7: ID %q VersionID %q URIString %q VersionedURIString %q,%v", tn, containedresource.ID(cr), containedresource.VersionID(cr), containedresource.URIString(cr), vu, okv)
+		}
+		cr2 := containedresource.Wrap(r2)
+		if _, ok := containedresource.VersionedURIString(cr2); ok || containedresource.VersionID(cr2) != "" || containedresource.URIString(cr2) != tn+"/x2" {
+			bad("contained-accessors", "contained %s/x2 without version: URIString %q VersionID %q", tn, containedresource.URIString(cr2), containedresource.VersionID(cr2))
+		}
+		post, put := bundle.NewPostEntry(r1), bundle.NewPutEntry(r1)
+		if bundle.UnwrapEntry(post) != r1 || bundle.UnwrapEntry(put) != r1 {
+			bad("bundle-entry-unwrap/not-same", "UnwrapEntry(NewPostEntry(x)) / UnwrapEntry(NewPutEntry(x)) is not x")
+		}
+		if post.GetRequest().GetUrl().GetValue() != tn || put.GetRequest().GetUrl().GetValue() != tn+"/x1" {
+			bad("bundle-entry-request", "POST url %q, PUT url %q", post.GetRequest().GetUrl().GetValue(), put.GetRequest().GetUrl().GetValue())
+		}
+		entries := []*bcrpb.Bundle_Entry{bundle.NewCollectionEntry(r2), post, bundle.NewCollectionEntry(r3), put}
+		want := []fhir.Resource{r2, r1, r3, r1}
+		for name, b := range map[string]*bcrpb.Bundle{
+			"NewTransaction": bundle.NewTransaction(bundle.WithEntries(entries...)), "NewCollection": bundle.NewCollection(bundle.WithEntries(entries...)), "NewBatch": bundle.NewBatch(bundle.WithEntries(entries...)),
+			"NewHistory": bundle.NewHistory(bundle.WithEntries(entries...)), "NewSearchset": bundle.NewSearchset(bundle.WithEntries(entries...)), "NewTransactionResponse": bundle.NewTransactionResponse(entries...),
+		} {
+			got := bundle.Unwrap(b)
+			same := len(got) == len(want)
+			for i := 0; same && i < len(want); i++ {
+				same = got[i] == want[i]
+			}
+			if !same {
+				bad("bundle-unwrap/constructed", "bundle.%s with entries [%s/x2, %s/x1, %s, %s/x1] unwraps to %d resources, not these in order", name, tn, tn, other, tn, len(got))
+			}
+			m := bundle.UnwrapMap(b)
+			if len(m) != 2 || len(m[resource.Type(tn)]) != 3 || m[resource.Type(tn)][0] != r2 || m[resource.Type(tn)][1] != r1 || m[resource.Type(tn)][2] != r1 || len(m[resource.Type(other)]) != 1 || m[resource.Type(other)][0] != r3 {
+				bad("bundle-unwrap-map", "bundle.UnwrapMap of bundle.%s: %d types, %d %s, %d %s", name, len(m), len(m[resource.Type(tn)]), tn, len(m[resource.Type(other)]), other)
+			}
+		}
+	})
+	env.Eval(40)
+	env.Cover("resource-type-more")
+	if out.Panicked || out.Dead {
+		env.Violatef("C20/panic@"+out.Site+"/"+core.NormMsg(out.PanicMsg), "wrappers for %s panicked: %s", tn, out.PanicMsg)
+	}
 }
 
 func replayC20Type(env *core.Env, a []json.RawMessage) {
